@@ -25,7 +25,9 @@ KEY_OVERRUN = "mempool:data-area-overrun"
 KEY_SHIFT = "mempool:free-shift-31"
 REQUIRED_MEMPOOL = ["Sqfs.MemPool." + t for t in (
     "inv_empty", "inv_set", "inv_clear", "inv_link", "createPool_wf", "alloc_step", "alloc_in_bounds", "alloc_fresh", "null_unchanged",
-    "live_disjoint", "bitmap_exact", "free_outside_detected", "free_step", "history_inv", "witness_bitmap_count_zero", "witness_data_area_overrun")]
+    "live_disjoint", "bitmap_exact", "free_outside_detected", "free_step", "history_inv", "allocate_fuel_enough", "size_layout",
+    "createPool_dataOff", "searchCount_spec", "create_spec", "create_count_pos", "create_inv", "data_inside_mapping", "alloc_inside_mapping",
+    "alloc_succeeds", "witness_free_shift_31", "witness_bitmap_count_zero", "witness_data_area_overrun")]
 
 
 def aligned(o):
@@ -39,8 +41,7 @@ def psz(c, o):
     return s + 32 * c * o
 
 
-def count_of(o):
-    """only used to AIM the generator (how many objects fill a block); the verdict never depends on it"""
+def count_old(o):
     o = aligned(o)
     c = 1
     while psz(c, o) <= POOL:
@@ -48,20 +49,32 @@ def count_of(o):
     return c - 1
 
 
+def count_of(o):
+    """only used to AIM the generator (how many objects fill a block); the verdict never depends on it"""
+    return max(1, count_old(o))
+
+
+def pool_of(o):
+    """bytes per block (aims the spacing of the mmap addresses the generator hands out)"""
+    return POOL if count_old(o) else psz(1, aligned(o))
+
+
 class Gen:
-    def __init__(self, r):
+    def __init__(self, r, obj=8):
         self.r = r
         self.slot = 0
+        # room per mmap answer: the block, a fence page on either side, up to 13 pages of shift
+        self.stride = max(SLOT, (pool_of(obj) + 16 * PAGE + PAGE - 1) // PAGE * PAGE)
 
     def base(self, shift=None):
-        b = ARENA + PAGE + self.slot * SLOT + (self.r.randrange(14) if shift is None else shift) * PAGE
+        b = ARENA + PAGE + self.slot * self.stride + (self.r.randrange(14) if shift is None else shift) * PAGE
         self.slot += 1
         return b
 
     def overrun_base(self, o):
         """a base for which create_pool's padding (absolute address) pushes the data area past the mapping, if any"""
         o = aligned(o)
-        c = count_of(o)
+        c = count_old(o)
         for k in range(self.slot, self.slot + 80):
             for sh in range(14):
                 b = ARENA + PAGE + k * SLOT + sh * PAGE
@@ -87,13 +100,13 @@ def size_classes(r):
     return r.choice([
         lambda: r.randrange(1, 65), lambda: r.randrange(1, 65), lambda: r.choice([1, 7, 8, 9, 15, 17, 24, 33, 40, 41, 56, 63, 100, 250]),
         lambda: r.randrange(65, 600), lambda: r.randrange(600, 1990), lambda: r.choice([1 << k for k in range(0, 11)]),
-        lambda: r.randrange(1970, 1985),
+        lambda: r.randrange(1970, 1985), lambda: r.randrange(1985, 4097),
     ])()
 
 
 def gen_history(r, tag, obj, quick, budget):
     """fill several blocks, free in random order, refill; hostile frees and state dumps in between; mmap failures"""
-    g = Gen(r)
+    g = Gen(r, obj)
     s = Sc(tag, "history", obj)
     per_block = 32 * count_of(obj)
     L = s.lines
@@ -159,7 +172,7 @@ def gen_history(r, tag, obj, quick, budget):
 
 def gen_small(r, tag, obj):
     """short scenario with a hostile free of every kind and misaligned pointers inside the data area"""
-    g = Gen(r)
+    g = Gen(r, obj)
     s = Sc(tag, "small", obj)
     L = s.lines
     o = aligned(obj)
@@ -189,12 +202,18 @@ def gen_calloc_fail(r, tag, obj):
 
 
 def gen_count0(r, tag, obj):
-    """obj_size (after alignment) > 1984: bitmap_count is 0, mem_pool_allocate maps blocks until mmap fails"""
-    g = Gen(r)
+    """obj_size (after alignment) > 1984: no bitmap word with its 32 objects fits into DEF_POOL_SIZE.  Repaired code: one word per
+    block, blocks of pool_size_from_bitmap_count(1, obj_size) bytes.  (Before the repair: bitmap_count 0, mem_pool_allocate
+    mapped blocks until mmap failed and returned NULL - reported under KEY_COUNT0 if it shows again.)"""
+    g = Gen(r, obj)
     s = Sc(tag, "count0", obj)
-    n = r.randrange(0, 6)
+    n = r.randrange(1, 4) if obj <= 70000 else r.randrange(1, 3)
     s.nmaps = n
-    s.lines += ["create %d" % obj, "maps " + " ".join(str(g.base()) for _ in range(n)), "alloc", "state", "alloc", "destroy"]
+    k = r.choice([1, 5, 32, 33, 40, 64, 65]) if obj <= 70000 else r.choice([1, 3, 33])
+    s.lines += ["create %d" % obj, "maps " + " ".join(str(g.base()) for _ in range(n))] + ["alloc"] * min(k, 32 * n) + ["state"]
+    if min(k, 32 * n) >= 2:
+        s.lines += ["free 0", "free 1", "alloc", "free 0", "state"]
+    s.lines += ["destroy"]
     return s
 
 
@@ -205,7 +224,7 @@ def gen_overrun(r, tag, obj):
     if b is None:
         return None
     s = Sc(tag, "overrun", obj)
-    n = 32 * count_of(obj)
+    n = 32 * count_old(obj)
     s.lines += ["create %d" % obj, "maps %d" % b] + ["alloc"] * n + ["state", "destroy"]
     return s
 
@@ -251,7 +270,7 @@ def spec_check(s, ans):
                 live[(bid, off)] = len(handed)
                 handed.append((bid, off))
             elif a.startswith("alloc null"):
-                if q and not q[0] and count > 0:
+                if q and not q[0]:
                     bad.append((i, "mem_pool_allocate returned NULL although mmap had an address to give"))
                 q = q[1:]
                 if i >= 1 and s.lines[i - 2] == "state" and i + 1 < len(ans) and s.lines[i + 1] == "state" and ans[i - 2] != ans[i + 1]:
@@ -299,7 +318,7 @@ def spec_check(s, ans):
                     bad.append((i, "block %d: obj_free %d but %d clear bits" % (bid, fr, 32 * len(words) - len(setbits))))
                 if setbits != per.get(bid, set()):
                     bad.append((i, "block %d: set bits and live objects differ (%d set, %d live)" % (bid, len(setbits), len(per.get(bid, ())))))
-                if count > 0 and s.kind != "overrun" and (doff < hdr + 4 * count or (base + doff) % o or doff + 32 * count * o > pool):
+                if s.kind != "overrun" and (doff < hdr + 4 * count or doff % o or (base + doff) % 8 or doff + 32 * count * o > pool):
                     bad.append((i, "block %d: data area [%d, %d) is not an obj_size-aligned area behind the bitmap inside the %d-byte mapping" % (bid, doff, doff + 32 * count * o, pool)))
             # objects of one block pairwise disjoint: all offsets are data + k * obj_size (checked via the bits above)
     return bad
@@ -342,8 +361,6 @@ def judge(ctx, s, ans, rc, err, mod):
             s.obj, rc, len(ans), len(s.lines), s.lines[i], err[-600:]), True)
     sb = spec_check(s, ans)
     diff = vlib.diff_streams(ans, mod)
-    if s.kind == "count0" and not diff and not sb and ans[0].endswith("count=0 hdr=%d" % HDR):
-        return None
     if sb:
         i, what = sb[0]
         return ("mempool:spec", "mempool.c (obj_size %d) violates the allocator property at line %d `%s`: %s%s" % (
@@ -426,10 +443,10 @@ def run_units(ctx, stats=None):
             elif a.startswith("state"):
                 cov["state_dumps"] += 1
         cov["spec_evaluations"] += len(ans)
-        # the two known defects: the model mirrors them (answers agree), the property does not hold
-        if s.kind == "count0" and ans and ans[0].endswith("count=0 hdr=%d" % HDR) and len(ans) == len(s.lines) and ans[2].startswith("alloc null"):
-            cov["count0_scenarios"] += 1
-        if s.kind == "count0" and cov["count0_scenarios"] >= 1 and KEY_COUNT0 not in reported and s.nmaps > 1 and ans[2].startswith("alloc null"):
+        # the three defects repaired by fixes/C19-mempool-latent.patch, should they show again (each under its old key)
+        if s.kind == "count0" and ans and re.search(r" count=[1-9]\d* ", ans[0]) and len(ans) == len(s.lines) and ALLOC.match(ans[2]):
+            cov["count0_scenarios"] += 1                  # an object larger than 1984 bytes was handed out
+        if s.kind == "count0" and ans and " count=0 " in ans[0] and KEY_COUNT0 not in reported and len(ans) > 2 and ans[2].startswith("alloc null"):
             reported.add(KEY_COUNT0)
             mapped = 0 if ans[2].endswith("blocks=-") else ans[2].split("blocks=")[1].count(",") + 1
             ctx.violation(KEY_COUNT0, "mem_pool_create(%d): bitmap_count is 0 (no bitmap word fits with 32 objects), mem_pool_allocate then maps a block, finds no slot, "
@@ -471,7 +488,7 @@ def run_units(ctx, stats=None):
     cov["rule"] = ("obj_size from {1..64, odd picks, 65..599, 600..1989, powers of two, 1970..1984}: histories that fill 1-4 blocks (mmap answers with a random "
                    "page shift; a failing or missing answer before a block is needed, state dumped before and after), frees with prob. 2% during the fill, then "
                    "all / half / a third freed in shuffled order with double frees, refill; small scenarios with hostile frees (double, misaligned inside the data "
-                   "area, other blocks, outside); calloc failure; obj_size 1985..2^20 (bitmap_count 0); obj_size 1001..1008 at an mmap address aimed at the padding")
+                   "area, other blocks, outside); calloc failure; obj_size 1985..2^20 (one bitmap word per block, blocks larger than DEF_POOL_SIZE; 1-65 objects over 1-3 blocks); obj_size 1001..1008 at an mmap address at which the code before the repair overran its block")
     return cov
 
 
